@@ -134,10 +134,19 @@ def _edge_constraints(body, block):
         for bb, i, d in M.def_sites(body, dl):
             if i != "term" and d["rv"]["k"] == "discr":
                 subj = _subject(body, d["rv"]["pl"])
+        flip = False
         if subj is None and body.local_ty(dl) == "bool":
             o = panics.operand_origin(body, sw["discr"])
             if o.startswith("field "):
                 subj = o          # a boolean field tested directly
+            else:
+                call, pos = M.flag_polarity(body, dl)
+                if call is not None and fn_matches(call, r"option::Option::<T>::(is_some|is_none)$") and call["args"]:
+                    o2 = panics.operand_origin(body, call["args"][0])
+                    if o2.startswith("field "):
+                        # `x.is_some()` / `x.is_none()`: reported as the Option's discriminant (1 = Some)
+                        subj = o2
+                        flip = (not pos) != fn_matches(call, r"is_none$")
         if subj is None:
             continue
         edges = [(v, tg) for v, tg in sw["targets"]] + [("otherwise", sw["otherwise"])]
@@ -147,6 +156,8 @@ def _edge_constraints(body, block):
             if v == "otherwise":
                 vals = {x for x, _ in sw["targets"]}
                 v = 1 if vals == {0} else 0 if vals == {1} else "otherwise"
+            if flip and v in (0, 1):
+                v = 1 - v
             out.append((subj, v))
     return out
 
@@ -566,6 +577,13 @@ def variant_rule(crate, prop, rule="C01.R3"):
                 slot_roles, payload_ok = ["payload"], True
                 if (0 in untag or not untag) and any(v in (0, 1) for v in tagged) and not (1 in untag):
                     verdict, why = "BAD", "the payload alone is emitted for an externally / adjacently tagged variant"
+                if 2 in tagged and not (1 in untag):
+                    # internally tagged: the struct body carries the tag itself - unless `as` / `type` on the variant replaced
+                    # that body, so this alternative must be unreachable when either is given
+                    t_as = [v for s2, v in cons if re.search(r"VariantAttr\.type_as$", s2)]
+                    t_ov = [v for s2, v in cons if re.search(r"VariantAttr\.type_override$", s2)]
+                    if not (0 in t_as and 0 in t_ov):
+                        verdict, why = "BAD", "an internally tagged variant is emitted as its payload alone although `as` / `type` on the variant may have replaced the struct body that carries the tag"
             else:
                 shape = next((sh for sh in VARIANT_SHAPES if re.match(sh[0], lit)), None)
                 if shape is None:
